@@ -38,6 +38,9 @@ type logEntry struct {
 type replica struct {
 	n   *node
 	pos int // number of log entries whose effects this replica holds
+	// skipForeign: restored from a state machine snapshot after the foreign hash slot
+	// had been written by a maintenance command (snapshots do not cover it)
+	skipForeign bool
 }
 
 type c13World struct {
@@ -66,12 +69,15 @@ type c13World struct {
 	gen   migGenCfg
 	now   int64
 
+	foreignDirty bool
+
 	accepted, rejected int
 	batchesMulti       int
 	recoveries         int
 }
 
 func runC13(t *testing.T, r *simkit.Run) {
+	dropPools()
 	simkit.Bubble(t, r, func() {
 		w := &c13World{r: r, tp: r.Tape}
 		defer func() {
@@ -199,7 +205,7 @@ func (w *c13World) run() {
 			r.FailSig("snapshot-divergence", "final", fmt.Sprintf("replica %s and the reference replica hold different state machine snapshots after all %d entries: %s", f.n.name, len(w.log), snapDiff(want.Data, got.Data)), nil)
 			return
 		}
-		if !w.checkState(f, "final") {
+		if !w.checkState(f, "final", nil) {
 			return
 		}
 	}
@@ -346,13 +352,24 @@ func (w *c13World) appendCommand(malformedBias, unownedBias, migBias, rtBias, ma
 			r.FailSig("unowned-hash-slot-written", "", fmt.Sprintf("#%d %s changed hash slot %d, which the slot does not own: %s", e.idx, e.desc, w.foreign, snapDiff(pre[fi], post[fi])), nil)
 			return
 		}
-		if e.isDelta {
+		if ci := parseCmd(e.data); ci.ok && ci.typ == wireApplyDelta {
+			// (also for byte-damaged payloads that still decode as a delta)
 			for i, hs := range w.tracked {
-				if hs != e.deltaHS && !bytes.Equal(pre[i], post[i]) {
-					r.FailSig("delta-wrote-other-hash-slot", "", fmt.Sprintf("#%d %s is a delta of hash slot %d but changed hash slot %d (owned: %v): %s", e.idx, e.desc, e.deltaHS, hs, w.owned, snapDiff(pre[i], post[i])), nil)
+				if hs != ci.deltaHS && !bytes.Equal(pre[i], post[i]) {
+					sig := ""
+					if ci.innerType == wireCreateRuntimeMeta {
+						sig = "delta-of-unfiltered-batch-command"
+					}
+					r.FailSig("delta-wrote-other-hash-slot", sig, fmt.Sprintf("#%d %s is a delta of hash slot %d but changed hash slot %d (owned: %v): %s", e.idx, e.desc, ci.deltaHS, hs, w.owned, snapDiff(pre[i], post[i])), nil)
 					return
 				}
 			}
+		}
+		if fi := len(w.tracked) - 1; !bytes.Equal(pre[fi], post[fi]) {
+			// an accepted maintenance-type payload wrote the foreign hash slot (allowed by
+			// design); state machine snapshots do not cover it
+			w.foreignDirty = true
+			r.Probe("foreign_hash_slot_written_by_maintenance")
 		}
 		if d := w.ref.durable(); d > e.idx {
 			r.FailSig("applied-index-ahead", "", fmt.Sprintf("durable applied index %d after entry %d", d, e.idx), nil)
@@ -400,12 +417,20 @@ func (w *c13World) cmd(e logEntry) multiraft.Command {
 
 // checkState compares every tracked hash slot of f with the reference replica
 // at the same log position.
-func (w *c13World) checkState(f *replica, when string) bool {
+func (w *c13World) checkState(f *replica, when string, batch []logEntry) bool {
 	got := w.snapAll(f.n)
 	want := w.snaps[f.pos]
 	for i := range w.tracked {
+		if f.skipForeign && i == len(w.tracked)-1 {
+			continue
+		}
 		if !bytes.Equal(got[i], want[i]) {
-			w.r.FailSig("snapshot-divergence", when+"/"+diffWhere(want[i], got[i]), fmt.Sprintf("replica %s %s: hash slot %d differs from the reference replica at log position %d: %s", f.n.name, when, w.tracked[i], f.pos, snapDiff(want[i], got[i])), nil)
+			where := diffWhere(want[i], got[i])
+			sig := when + "/" + where
+			if rc := w.rootCause(batch, -1, nil, i, where); rc != "" {
+				sig = rc
+			}
+			w.r.FailSig("snapshot-divergence", sig, fmt.Sprintf("replica %s %s: hash slot %d differs from the reference replica at log position %d (%s): %s", f.n.name, when, w.tracked[i], f.pos, where, snapDiff(want[i], got[i])), nil)
 			return false
 		}
 	}
@@ -415,6 +440,9 @@ func (w *c13World) checkState(f *replica, when string) bool {
 	// typed reads (independent of the exporter), against the reference replica's current state
 	gotD, wantD := w.dumpAll(f.n), w.dumpAll(w.ref)
 	for i := range w.tracked {
+		if f.skipForeign && i == len(w.tracked)-1 {
+			continue
+		}
 		if gotD[i] != wantD[i] {
 			w.r.FailSig("read-divergence", when, fmt.Sprintf("replica %s %s: typed reads of hash slot %d differ from the reference replica at log position %d although the exported snapshot bytes agree:\n reference: %s\n replica:   %s", f.n.name, when, w.tracked[i], f.pos, wantD[i], gotD[i]), nil)
 			return false
@@ -423,22 +451,34 @@ func (w *c13World) checkState(f *replica, when string) bool {
 	return true
 }
 
-// compareOne checks the outcome of entry e on replica f against the reference.
-func (w *c13World) compareOne(f *replica, e logEntry, res []byte, err error, how string) bool {
+// compareOne checks the outcome of entry batch[j] on replica f against the
+// reference; batch is what the replica was given in that ApplyBatch call.
+func (w *c13World) compareOne(f *replica, batch []logEntry, j int, res []byte, err error, how string) bool {
 	r := w.r
+	e := batch[j]
+	var got []byte
+	if err == nil {
+		got = res
+	}
+	rc := ""
+	if (err != nil) != e.rejected || (err == nil && !bytes.Equal(res, e.res)) {
+		rc = w.rootCause(batch, j, got, -1, "")
+	}
+	pick := func(symptom string) string {
+		if rc != "" {
+			return rc
+		}
+		return symptom
+	}
 	switch {
 	case err != nil && !e.rejected:
-		r.FailSig("outcome-divergence", "error-only-on-replica", fmt.Sprintf("#%d %s: reference replica returned %s, replica %s (%s) failed with %v", e.idx, e.desc, short(e.res), f.n.name, how, err), nil)
+		r.FailSig("outcome-divergence", pick("error-only-on-replica"), fmt.Sprintf("#%d %s: reference replica returned %s, replica %s (%s) failed with %v", e.idx, e.desc, short(e.res), f.n.name, how, err), nil)
 	case err == nil && e.rejected:
-		r.FailSig("outcome-divergence", "error-only-on-reference", fmt.Sprintf("#%d %s: reference replica rejected it (%s), replica %s (%s) returned %s", e.idx, e.desc, e.errCls, f.n.name, how, short(res)), nil)
+		r.FailSig("outcome-divergence", pick("error-only-on-reference"), fmt.Sprintf("#%d %s: reference replica rejected it (%s), replica %s (%s) returned %s", e.idx, e.desc, e.errCls, f.n.name, how, short(res)), nil)
 	case err != nil && errClass(err) != e.errCls:
 		r.FailSig("outcome-divergence", "error-class", fmt.Sprintf("#%d %s: reference replica rejected with %s, replica %s (%s) with %s", e.idx, e.desc, e.errCls, f.n.name, how, errClass(err)), nil)
 	case err == nil && !bytes.Equal(res, e.res):
-		sig := resultKind(e.res) + "->" + resultKind(res)
-		if string(e.res) == "hash_slot_fenced" || string(res) == "hash_slot_fenced" {
-			sig = "hash-slot-fence-seen-differently"
-		}
-		r.FailSig("result-divergence", sig, fmt.Sprintf("#%d %s: reference replica (applied alone) returned %q, replica %s (%s) returned %q", e.idx, e.desc, e.res, f.n.name, how, res), nil)
+		r.FailSig("result-divergence", pick(resultKind(e.res)+"->"+resultKind(res)), fmt.Sprintf("#%d %s: reference replica (applied alone) returned %q, replica %s (%s) returned %q", e.idx, e.desc, e.res, f.n.name, how, res), nil)
 	default:
 		return true
 	}
@@ -477,8 +517,8 @@ func (w *c13World) deliver(f *replica, size, crashAt, crashPct int) {
 			r.Fail("result-count", fmt.Sprintf("%s: %d results for %d commands", how, len(out.res), size), nil)
 			return
 		}
-		for i, e := range entries {
-			if !w.compareOne(f, e, out.res[i], nil, how) {
+		for i := range entries {
+			if !w.compareOne(f, entries, i, out.res[i], nil, how) {
 				return
 			}
 		}
@@ -497,7 +537,7 @@ func (w *c13World) deliver(f *replica, size, crashAt, crashPct int) {
 		}
 		r.Probe("batch_rejected_then_single")
 		if clone == nil {
-			if !w.checkState(f, "after-failed-batch") {
+			if !w.checkState(f, "after-failed-batch", nil) {
 				return
 			}
 			for _, e := range entries {
@@ -510,7 +550,7 @@ func (w *c13World) deliver(f *replica, size, crashAt, crashPct int) {
 				if o.err == nil {
 					res = o.res[0]
 				}
-				if !w.compareOne(f, e, res, o.err, "alone after failed batch") {
+				if !w.compareOne(f, []logEntry{e}, 0, res, o.err, "alone after failed batch") {
 					return
 				}
 				f.pos++
@@ -529,7 +569,7 @@ func (w *c13World) deliver(f *replica, size, crashAt, crashPct int) {
 	if crashAt > 0 {
 		r.Probe("crash_point_not_reached")
 	}
-	w.checkState(f, "after-apply")
+	w.checkState(f, "after-apply", entries)
 }
 
 // recover: after a restart the replica continues from its durable applied
@@ -553,7 +593,11 @@ func (w *c13World) recover(f *replica, lo, hi int) {
 	}
 	f.pos = d
 	r.Logf("%s recovers with durable applied index %d, replays from #%d", f.n.name, d, d+1)
-	w.checkState(f, "after-restart")
+	var inflight []logEntry
+	if d == hi && lo < hi {
+		inflight = w.log[lo:hi] // the batch that was in flight survived the crash as a whole
+	}
+	w.checkState(f, "after-restart", inflight)
 }
 
 // durablePos: the applied index the reference replica reported after pos entries
@@ -634,10 +678,11 @@ func (w *c13World) snapshotRestore(f *replica) {
 		return
 	}
 	f.pos = srcPos
+	f.skipForeign = f.skipForeign || w.foreignDirty
 	w.recoveries++
 	if d := int(f.n.durable()); srcPos > 0 && d != srcPos {
 		r.FailSig("restore-applied-index", "", fmt.Sprintf("after restoring a snapshot at #%d the durable applied index is %d", srcPos, d), nil)
 		return
 	}
-	w.checkState(f, "after-snapshot-restore")
+	w.checkState(f, "after-snapshot-restore", nil)
 }
